@@ -121,13 +121,22 @@ func (c08) Run(e *Env) {
 	}
 	var series []*tseries
 	for i := 0; i < nSeries; i++ {
-		s := &tseries{name: fmt.Sprintf("t%d", i), typ: []string{"ms", "h"}[e.Draw(2)]}
+		s := &tseries{name: fmt.Sprintf("t%d", e.Draw(2)), typ: []string{"ms", "h"}[e.Draw(2)]} // names repeat: same name under several tag sets
 		if e.Chance(1, 3) {
 			s.histTag = histTags[e.Draw(len(histTags))]
 			s.tags = append(s.tags, s.histTag)
 		}
 		if e.Bool() {
 			s.tags = append(s.tags, tagPool[e.Draw(len(tagPool))])
+		}
+		dupSeries := false
+		for _, o := range series {
+			if o.name == s.name && strings.Join(o.tags, ",") == strings.Join(s.tags, ",") {
+				dupSeries = true
+			}
+		}
+		if dupSeries {
+			s.tags = append(s.tags, fmt.Sprintf("u:%d", i))
 		}
 		series = append(series, s)
 	}
